@@ -39,3 +39,9 @@ Definition row_agrees (fields : list string) (freq_ok : bool) (impl : result cro
   | [_; _; _; rank] => has_int_extra rank
   | _ => false
   end || res_eqb crow_eqb (parse_row fields freq_ok) impl.
+
+(* whole files: the implementation's answer is Some rows, or None when it refused *)
+Fixpoint crows_eqb (a b : list crow) : bool :=
+  match a, b with [], [] => true | x :: a', y :: b' => crow_eqb x y && crows_eqb a' b' | _, _ => false end.
+Definition load_agrees (m : result (list crow)) (impl : option (list crow)) : bool :=
+  match m, impl with Ok a, Some b => crows_eqb a b | Err _, None => true | _, _ => false end.
